@@ -10,6 +10,7 @@ The tree is always restored, also on interruption.
 """
 import json, os, subprocess, sys, time, glob, re, signal
 
+HERE = os.path.dirname(os.path.dirname(os.path.abspath(__file__)))  # the copy of /verif this script runs from (a snapshot lets /verif be edited meanwhile)
 ENV = dict(os.environ, GOFLAGS="-mod=mod", GOPROXY="off", GOSUMDB="off", GOTOOLCHAIN="local")
 
 
@@ -46,7 +47,7 @@ def main():
             names.append(args[i])
             i += 1
     if not names:
-        names = sorted(os.path.basename(d) for d in glob.glob("/verif/seeded/C*-*"))
+        names = sorted(os.path.basename(d) for d in glob.glob(HERE + "/seeded/C*-*"))
     scratch = TREE != "/repo"
     if scratch:
         sh("git -C /repo worktree remove --force " + TREE)
@@ -64,7 +65,7 @@ def main():
     try:
         for name in names:
             pid = name.split("-")[0]
-            patch = "/verif/seeded/%s/patch.diff" % name
+            patch = HERE + "/seeded/%s/patch.diff" % name
             restore()
             rc, out = sh("git -C %s apply %s" % (TREE, patch))
             if rc:
@@ -77,7 +78,7 @@ def main():
                     continue
             for cid in [pid] + also:
                 t0 = time.time()
-                rc, out = sh("/verif/check %s --tier %s --repo %s" % (cid, tier, TREE))
+                rc, out = sh(HERE + "/check %s --tier %s --repo %s" % (cid, tier, TREE))
                 viol = re.findall(r"^VIOLATION property=(\S+) replay=(\S+)", out, re.M)
                 sigs = re.findall(r"^\s+violation: ([^:]+(?::[^ :]+)*):", out, re.M)
                 r = {"exit": rc, "caught": rc == 1 and bool(viol), "wall_s": round(time.time() - t0, 1),
